@@ -270,6 +270,11 @@ func runC08(c *Ctx) {
 				// the raw Value of r/p keeps the inner blanks; the definitions are the tokens
 				same = tokensOnly(obs) == tokensOnly(orig)
 			}
+			// the resolved field indexes (priority, sub, dom, … by name) belong to the definitions too:
+			// AddPolicy reads them directly
+			if vm != nil && origModel != nil && fieldIndexes(vm) != fieldIndexes(origModel) {
+				c.Direct("a layout change altered the resolved field indexes of a policy definition", fmt.Sprintf("file=%s variant=%s\noriginal: %s\nvariant:  %s", name, k, fieldIndexes(origModel), fieldIndexes(vm)))
+			}
 			if !same {
 				c.Direct("a layout change altered the definitions", fmt.Sprintf("file=%s variant=%s\noriginal: %s\nvariant:  %s", name, k, orig, obs))
 				continue
@@ -348,5 +353,20 @@ func tokensOnly(dump string) string {
 			parts[i] = strings.Join(f, "|")
 		}
 	}
+	return strings.Join(parts, " ")
+}
+
+// fieldIndexes prints Assertion.FieldIndexMap of every policy definition, sorted.
+func fieldIndexes(m model.Model) string {
+	var parts []string
+	for pt, ast := range m["p"] {
+		var ks []string
+		for k, v := range ast.FieldIndexMap {
+			ks = append(ks, fmt.Sprintf("%q=%d", k, v))
+		}
+		sort.Strings(ks)
+		parts = append(parts, pt+":"+strings.Join(ks, ","))
+	}
+	sort.Strings(parts)
 	return strings.Join(parts, " ")
 }
